@@ -100,6 +100,9 @@ def gen_case(rnd, tier, index):
     perm = PERMS[index % len(PERMS)]
     wrnd = random.Random(core.run_seed('C05/workbook', group))
     knobs = wbgen.draw_knobs(wrnd)
+    # computed references as whole formulas (=OFFSET(..), =INDIRECT("..")): there are no writes
+    # here, so the dependency tracking they lack does not matter; the order of evaluation does
+    knobs['computed_refs'] = wrnd.random() < 0.4
     spec = wbgen.generate(wrnd, knobs)
     dag = wbgen.Dag(spec)
     origin = wrnd.choice(('nodata', 'nodata', 'xlsx', 'xlsx', 'yml', 'json', 'pkl'))
@@ -178,6 +181,14 @@ def legalise(case):
     return case
 
 
+class WrongShape(Exception):
+    pass
+
+
+class OutsideUsedArea(Exception):
+    """an unbounded range was clipped so short that the cell is not in it"""
+
+
 def perform(model, op):
     """returns {cell address: value} for the cells this access path yields"""
     from pycel.excelutil import AddressCell, AddressRange
@@ -197,13 +208,29 @@ def perform(model, op):
     res = model.evaluate(AddressRange(rng) if path == 'objrange' else rng)
     sheet, coord = wbgen.split_addr(op['a'])
     r, c = wbgen.coord_rc(coord)
-    if path == 'col':
+    if path in ('col', 'row') and isinstance(res, tuple) and (
+            len(res) == 1 or any(isinstance(x, tuple) and len(x) == 1 for x in res)):
+        # a dimension of length one is always trimmed
+        raise WrongShape(f'unbounded range returned {values.show(res)}')
+    if path in ('col', 'row'):
         # rows 1..used; one column: trimmed to a tuple over rows (or a scalar)
-        return {op['a']: res[r - 1] if isinstance(res, tuple) else res}
-    if path == 'row':
-        return {op['a']: res[c - 1] if isinstance(res, tuple) else res}
+        k = (r if path == 'col' else c) - 1
+        if not isinstance(res, tuple):
+            if k != 0:
+                raise OutsideUsedArea(f'{rng} returned the scalar {values.show(res)}')
+            return {op['a']: res}
+        if k >= len(res):
+            raise OutsideUsedArea(f'{rng} returned {len(res)} elements, cell is number {k + 1}')
+        return {op['a']: res[k]}
     rows = wbgen.range_cells(rng)
     h, w = len(rows), len(rows[0])
+    # documented shape: excess dimensions trimmed (Nx1 and 1xN -> flat tuple, 1x1 -> scalar)
+    ok = (not isinstance(res, tuple)) if (h == 1 and w == 1) else (
+        isinstance(res, tuple) and len(res) == (h if w == 1 or h > 1 else w) and (
+            all(not isinstance(x, tuple) for x in res) if (h == 1 or w == 1) else
+            all(isinstance(x, tuple) and len(x) == w for x in res)))
+    if not ok:
+        raise WrongShape(f'{h}x{w} range returned {values.show(res)}')
     out = {}
     for i, row in enumerate(rows):
         for j, addr in enumerate(row):
@@ -291,6 +318,18 @@ def run_case(case):
             count('path:' + op['path'])
             try:
                 got = perform(model, op)
+            except WrongShape as exc:
+                violate('wrong-shape', i, op, 'trimmed to the documented shape', str(exc))
+                continue
+            except OutsideUsedArea as exc:
+                kind_e, ev = expected.get(op['a'], ('err', None))
+                if kind_e == 'ok' and ev is not None:
+                    violate('cell-clipped-out-of-unbounded-range', i, op, values.jsonable(ev),
+                            str(exc), cell=op['a'])
+                else:
+                    # a blank cell at the edge is not part of the used area
+                    count('probe:blank-cell-outside-used-area')
+                continue
             except Exception as exc:   # noqa
                 if any(expected.get(c, ('err',))[0] == 'ok' for c in (op.get('addrs') or [op['a']])):
                     violate('exception', i, op, 'a value', f'{type(exc).__name__}: {str(exc)[-200:]}',
